@@ -13,7 +13,8 @@ import dates as D   # noqa: E402
 from parallel import driver_parallel  # noqa: E402
 
 GEN = ['DateK', 'Calendar']
-PROPS = ['FinVerif.Props.C14a', 'FinVerif.Props.C14b', 'FinVerif.Props.C14c', 'FinVerif.Props.C14d', 'FinVerif.Props.C14e']
+PROPS = ['FinVerif.Props.C14a', 'FinVerif.Props.C14b', 'FinVerif.Props.C14c', 'FinVerif.Props.C14d', 'FinVerif.Props.C14e',
+         'FinVerif.Props.C14f', 'FinVerif.Props.C14g', 'FinVerif.Props.C14h', 'FinVerif.Props.C14i', 'FinVerif.Props.C14j']
 DRIVERS = ['FinVerif.Driver.C14']
 SPEC_DRIVERS = ['FinVerif.Driver.C14Spec']
 
@@ -87,6 +88,33 @@ def run(ctx):
             nonbus.setdefault(int(p[1]), []).append((int(p[2]), int(p[3]), int(p[4])))
     compare(ctx, 'is_holiday/is_business_day', ops, impl, drivers_ok, spec_ok, nontriv, exhaustive=True)
 
+    # ---------------------------------------------------------------- runs of non-business days (direct oracle)
+    # executable reading of Props/C14g,h on the implementation's own answers: in no calendar are Tuesday..Friday of
+    # one week all non-business days, hence no run of non-business days is longer than 9 (adjust walks <= 9 days)
+    import datetime as _dtm
+    nruns = 0
+    for c in cals:
+        ords = sorted(_dtm.date(t[2], t[1], t[0]).toordinal() for t in nonbus.get(c.value, []))
+        oset = set(ords)
+        longest, run, prev, worst = 0, 0, None, None
+        for o in ords:
+            run = run + 1 if prev is not None and o == prev + 1 else 1
+            prev = o
+            if run > longest:
+                longest, worst = run, o
+            if _dtm.date.fromordinal(o).weekday() == 1 and (o + 1) in oset and (o + 2) in oset and (o + 3) in oset:
+                d0 = _dtm.date.fromordinal(o)
+                ctx.violation('Tuesday..Friday of one week are all non-business days (contradicts noRun_every_calendar)',
+                              {'cal': c.name, 'tuesday': (d0.day, d0.month, d0.year)}, clause='termination-run-bound')
+        nruns += len(ords)
+        if longest > 9:
+            d0 = _dtm.date.fromordinal(worst)
+            ctx.violation('more than 9 consecutive non-business days',
+                          {'cal': c.name, 'run': longest, 'ends': (d0.day, d0.month, d0.year)},
+                          clause='termination-run-bound')
+        ctx.cov.setdefault('longest_nonbusiness_run', {})[c.name] = longest
+    ctx.count('non-business runs', nruns, nruns)
+
     # ---------------------------------------------------------------- adjust
     ops, impl = [], []
     y0 = 1901 + rng.randrange(0, 259)
@@ -105,7 +133,17 @@ def run(ctx):
             for t in sel:
                 dt = date_of(t)
                 try:
-                    r = fmt_date(cal.adjust(dt, cv))
+                    res = cal.adjust(dt, cv)
+                    r = fmt_date(res)
+                    # direct oracles (Props/C14h, C14i on the implementation): at most nine days away; the
+                    # MODIFIED conventions never leave the month of the input
+                    if abs(res.excel_dt - dt.excel_dt) > 9:
+                        ctx.violation('adjust moved the date by more than nine days',
+                                      {'cal': c.name, 'conv': cv.name, 'date': t, 'result': r}, clause='adjust-distance')
+                    if cv in (BusDayAdjustTypes.MODIFIED_FOLLOWING, BusDayAdjustTypes.MODIFIED_PRECEDING) and \
+                            (res.m != t[1] or res.y != t[2]):
+                        ctx.violation('MODIFIED adjustment left the month of the input',
+                                      {'cal': c.name, 'conv': cv.name, 'date': t, 'result': r}, clause='modified-same-month')
                 except Exception as e:  # noqa: BLE001
                     r = err_kind(e)
                 ops.append(f'A {c.value} {cv.value} {t[0]} {t[1]} {t[2]}')
@@ -127,6 +165,16 @@ def run(ctx):
             if n != 0 and not cal.is_business_day(res):
                 ctx.violation('add_business_days result is not a business day',
                               {'cal': c.name, 'start': t, 'n': n, 'result': r}, clause='lands-on-business-day')
+            if n == 0 and r != fmt_date(dt):
+                ctx.violation('add_business_days(start, 0) is not the start',
+                              {'cal': c.name, 'start': t, 'result': r}, clause='zero-identity')
+            if abs(n) >= 2:
+                n1 = (abs(n) // 2) * (1 if n > 0 else -1)
+                two = cal.add_business_days(cal.add_business_days(dt, n1), n - n1)
+                if fmt_date(two) != r:
+                    ctx.violation('add_business_days: n1 then n2 (same sign) differs from n1 + n2',
+                                  {'cal': c.name, 'start': t, 'n1': n1, 'n2': n - n1, 'two_stage': fmt_date(two),
+                                   'one_stage': r}, clause='additive')
             if cal.is_business_day(dt):
                 back = cal.add_business_days(res, -n)
                 if fmt_date(back) != fmt_date(dt):
@@ -149,6 +197,14 @@ def run(ctx):
         ops.append(f'EM {y}')
         impl.append(r)
     compare(ctx, 'easter_monday', ops, impl, drivers_ok, spec_ok, len(ops), exhaustive=True)
+    # Easter Monday is a Monday, Good Friday (3 days earlier) a Friday — Props/C14f on the implementation
+    for y in range(1901, 2101):
+        em = calobj[CalendarTypes.TARGET].easter_monday(y)
+        gf = em.add_days(-3)
+        if em.weekday != 0 or gf.weekday != 4 or not calobj[CalendarTypes.TARGET].is_holiday(gf):
+            ctx.violation('Easter Monday is not a Monday / Good Friday is not a Friday holiday',
+                          {'year': y, 'easter_monday': fmt_date(em), 'weekday': em.weekday}, clause='easter-weekday')
+    ctx.count('easter weekdays', 200, 200)
 
     # ---------------------------------------------------------------- order independence
     # is_holiday keeps per-call scratch (day_in_year, weekday) on the Calendar object: asking in a random
@@ -196,11 +252,11 @@ def run(ctx):
 
     ctx.assumptions += [
         'rule lists in FinVerif/Spec/Calendar.lean are a reading of the named rules in calendar.py; agreement with real-world public holidays is not claimed',
-        'termination of the adjust walk (fuel 40) is validated by the exhaustive correspondence, not proved',
+        'termination of the adjust walk is proved for all 15 calendars for held dates of 1917..2197 (Props/C14g, C14h: at most 10 evaluations); for the remaining years of 1901..2199 it is validated by the exhaustive correspondence',
         'the date table was extended to 2201 before the run (table-extension history is decided under C13/C18)',
     ]
     return C.finish(ctx, 'proof',
-                    'lake build FinVerif.Props.C14a FinVerif.Props.C14b FinVerif.Props.C14c FinVerif.Props.C14d && lake env lean .cache/audit/Audit_C14.lean',
+                    'lake build ' + ' '.join(PROPS) + ' && lake env lean .cache/audit/Audit_C14.lean',
                     C.TRUSTED_BASE_COMMON + ['Spec: rule lists per calendar, Gregorian computus, 1 Mar 1900 = serial 61 = Thursday'],
                     RULE)
 
